@@ -21,6 +21,7 @@
  *   EPCTLFAIL <n>                  the n-th EPOLL_CTL_ADD from now fails with ENOSPC
  *   JUNK <byte>                    fill pattern for fresh allocations
  *   REPLY c<N> <k> <hex>           c<N> answers the k-th routed request it received: {"id":<that id>,<member text>}
+ *   REPLY c<N> <k1,k2,..> <hex> [arr]   the same answer for several requests (or one, with "arr") as ONE JSON array
  *   QUIESCE                        snapshot of daemon state
  *   TERM                           SIGTERM
  * Observation log on stdout (see vlib/simk.py for the parser).
@@ -803,6 +804,8 @@ static void set_origin(struct simfd *c, const char *origin)
 struct batch_item { int fd; uint32_t events; };
 static struct batch_item batch[64];
 static int batch_n = 0;
+static int carry_n = 0;
+static struct batch_item carry[64];
 
 static void batch_add(int fd, uint32_t ev)
 {
@@ -841,18 +844,37 @@ static bool exec_line(char *line)
 		int kk = atoi(a2);
 		if (fd0 < 0) { out("BADCMD %s", a1); return false; }
 		int cn = fds[fd0].handle;
-		if (kk >= n_routed[cn]) { out("NOREPLY c%d %d", cn, kk); return false; }
+		/* <k> may be a comma separated list: the answers are then sent as ONE JSON array; a single <k> followed by the
+		 * word "arr" gives an array with one element */
+		int ks[16], nks = 0;
+		for (const char *q = a2; *q && nks < 16;) {
+			ks[nks++] = atoi(q);
+			q = strchr(q, ',');
+			if (!q) break;
+			q++;
+		}
+		char *a4 = strtok_r(NULL, " \t\r\n", &save);
+		bool as_array = nks > 1 || (a4 && strcmp(a4, "arr") == 0);
+		for (int i = 0; i < nks; i++) {
+			if (ks[i] < 0 || ks[i] >= n_routed[cn]) { out("NOREPLY c%d %d", cn, ks[i]); return false; }
+		}
 		uint8_t *member;
 		size_t mlen = unhex(a3, &member);
-		const char *id = routed_ids[cn][kk];
-		size_t tlen = 7 + strlen(id) + 2 + mlen + 1;
+		size_t tlen = 4;
+		for (int i = 0; i < nks; i++) tlen += 7 + strlen(routed_ids[cn][ks[i]]) + 2 + mlen + 2;
 		uint8_t *text = __real_malloc(tlen + 16);
 		size_t o = 0;
-		memcpy(text + o, "{\"id\":\"", 7); o += 7;
-		memcpy(text + o, id, strlen(id)); o += strlen(id);
-		memcpy(text + o, "\",", 2); o += 2;
-		memcpy(text + o, member, mlen); o += mlen;
-		text[o++] = '}';
+		if (as_array) text[o++] = '[';
+		for (int i = 0; i < nks; i++) {
+			const char *id = routed_ids[cn][ks[i]];
+			if (i) text[o++] = ',';
+			memcpy(text + o, "{\"id\":\"", 7); o += 7;
+			memcpy(text + o, id, strlen(id)); o += strlen(id);
+			memcpy(text + o, "\",", 2); o += 2;
+			memcpy(text + o, member, mlen); o += mlen;
+			text[o++] = '}';
+		}
+		if (as_array) text[o++] = ']';
 		free(member);
 		uint8_t *frame = __real_malloc(o + 16);
 		size_t fl = 0;
@@ -1025,7 +1047,7 @@ int __wrap_epoll_wait(int epfd, struct epoll_event *events, int maxevents, int t
 		snapshot("BASE");
 	}
 	while (1) {
-		if (terminated || script_pos >= script_len) {
+		if (terminated || (script_pos >= script_len && carry_n == 0)) {
 			terminated = true;
 			out("STEP %d TERM", script_pos);
 			snapshot("PRETERM");
@@ -1033,18 +1055,32 @@ int __wrap_epoll_wait(int epfd, struct epoll_event *events, int maxevents, int t
 			errno = EINTR;
 			return -1;
 		}
-		char *line = strdup(script[script_pos]);
-		out("STEP %d %s", script_pos, script[script_pos]);
-		script_pos++;
-		batch_n = 0;
-		bool ready = exec_line(line);
-		free(line);
+		bool ready;
+		if (carry_n > 0) {
+			/* ready descriptors that did not fit into the caller's event array last time are reported now,
+			 * before the next script line (as the kernel's ready list would) */
+			batch_n = carry_n;
+			memcpy(batch, carry, sizeof(batch[0]) * (size_t)carry_n);
+			carry_n = 0;
+			ready = true;
+		} else {
+			char *line = strdup(script[script_pos]);
+			out("STEP %d %s", script_pos, script[script_pos]);
+			script_pos++;
+			batch_n = 0;
+			ready = exec_line(line);
+			free(line);
+		}
 		if (terminated) continue;
 		if (ready && batch_n > 0) {
 			int n = 0;
-			for (int i = 0; i < batch_n && n < maxevents; i++) {
+			for (int i = 0; i < batch_n; i++) {
 				struct simfd *s = &fds[batch[i].fd];
 				if (!s->open || !s->registered) { out("DROPPED event for %s (not registered)", hname(batch[i].fd)); continue; }
+				if (n >= maxevents) {
+					if (carry_n < 64) carry[carry_n++] = batch[i];
+					continue;
+				}
 				events[n].events = batch[i].events;
 				events[n].data.ptr = s->data_ptr;
 				n++;
@@ -1052,6 +1088,7 @@ int __wrap_epoll_wait(int epfd, struct epoll_event *events, int maxevents, int t
 			if (n == 0) continue;
 			printf("BATCH");
 			for (int i = 0; i < batch_n; i++) printf(" %s:%x", hname(batch[i].fd), batch[i].events);
+			if (carry_n > 0) printf(" (last %d carried over to the next wait)", carry_n);
 			printf("\n");
 			fflush(stdout);
 			return n;
